@@ -632,3 +632,7 @@ mod tests {
         ));
     }
 }
+
+#[cfg(feature = "pendulum_project_ntpd_rs_verif")]
+#[path = "/verif/hooks/ntp-proto/packet_v5_mod.rs"]
+pub mod verif_hooks;
